@@ -264,7 +264,11 @@ type Exec struct {
 	Unsup   []string
 	dualOff map[string]int64
 	OnStmt  func(st *State, s ast.Stmt)
-	Phis    map[string][]PhiArm // φ atom key → the values it abstracts, one per arm
+	// OnOp is called for every partial operation at the statement that executes it (not where its value is
+	// forwarded to): kind quo|idiv|mod|pow|sqrt|log|…, the syntax node, the evaluated operands
+	OnOp     func(st *State, kind string, site ast.Node, ops []Poly)
+	Phis     map[string][]PhiArm // φ atom key → the values it abstracts, one per arm
+	AllLoops []*LoopCtx
 
 	lastCallRoots map[string]bool
 	Opaque        map[string]bool // roots whose stores are not forwarded (kept as versioned atoms)
@@ -596,6 +600,16 @@ func (x *Exec) eval(st *State, e ast.Expr) Poly {
 				return PCall("concat", x.eval(st, t.X), x.eval(st, t.Y))
 			}
 			l, r := x.eval(st, t.X), x.eval(st, t.Y)
+			if x.OnOp != nil {
+				switch {
+				case t.Op == token.QUO && isIntegerType(x.Info.TypeOf(e)):
+					x.OnOp(st, "idiv", t, []Poly{l, r})
+				case t.Op == token.QUO:
+					x.OnOp(st, "quo", t, []Poly{l, r})
+				case t.Op == token.REM:
+					x.OnOp(st, "mod", t, []Poly{l, r})
+				}
+			}
 			switch t.Op {
 			case token.ADD:
 				return l.Add(r)
@@ -741,6 +755,9 @@ func (x *Exec) evalCall(st *State, call *ast.CallExpr, multi *[]Poly) Poly {
 		args = append(args, x.eval(st, a))
 	}
 	if cf != nil && cf.Pkg() != nil && cf.Pkg().Path() == "math" && pureMath[cf.Name()] {
+		if x.OnOp != nil {
+			x.OnOp(st, strings.ToLower(cf.Name()), call, args)
+		}
 		switch cf.Name() {
 		case "Pow":
 			if n, ok := args[1].ConstInt(); ok && n >= -8 && n <= 8 && (args[0].single() != nil || (n >= -2 && n <= 2) || (len(args[0].T) <= 2 && n <= 4 && n >= -4)) {
@@ -927,10 +944,26 @@ func (x *Exec) cond(st *State, e ast.Expr) *Cond {
 		}
 	case *ast.BinaryExpr:
 		switch t.Op {
-		case token.LAND:
-			return &Cond{Kind: "and", Sub: []*Cond{x.cond(st, t.X), x.cond(st, t.Y)}, Expr: e}
-		case token.LOR:
-			return &Cond{Kind: "or", Sub: []*Cond{x.cond(st, t.X), x.cond(st, t.Y)}, Expr: e}
+		case token.LAND, token.LOR:
+			l := x.cond(st, t.X)
+			var rc *Cond
+			if x.OnOp != nil {
+				// short circuit: the right operand is evaluated only when the left one allows it
+				n := len(st.guards)
+				if t.Op == token.LAND {
+					st.guards = append(st.guards, l)
+				} else {
+					st.guards = append(st.guards, l.Negate())
+				}
+				rc = x.cond(st, t.Y)
+				st.guards = st.guards[:n]
+			} else {
+				rc = x.cond(st, t.Y)
+			}
+			if t.Op == token.LAND {
+				return &Cond{Kind: "and", Sub: []*Cond{l, rc}, Expr: e}
+			}
+			return &Cond{Kind: "or", Sub: []*Cond{l, rc}, Expr: e}
 		case token.EQL, token.NEQ, token.LSS, token.LEQ, token.GTR, token.GEQ:
 			return mkCmp(x.eval(st, t.X), x.eval(st, t.Y), t.Op, e)
 		}
@@ -1413,8 +1446,14 @@ func (x *Exec) assign(st *State, t *ast.AssignStmt) {
 			v = l.Mul(r)
 		case token.QUO_ASSIGN:
 			if isIntegerType(x.Info.TypeOf(t.Lhs[0])) {
+				if x.OnOp != nil {
+					x.OnOp(st, "idiv", t, []Poly{l, r})
+				}
 				v = PCall("idiv", l, r)
 			} else {
+				if x.OnOp != nil {
+					x.OnOp(st, "quo", t, []Poly{l, r})
+				}
 				v = l.Div(r)
 			}
 		default:
@@ -1552,6 +1591,7 @@ func (x *Exec) forStmt(st *State, t *ast.ForStmt) []*State {
 	}
 	x.nloop++
 	L := &LoopCtx{ID: x.nloop, Stmt: t, Entry: st.clone()}
+	x.AllLoops = append(x.AllLoops, L)
 	tag := fmt.Sprintf("L%d", L.ID)
 	head := st.clone()
 	x.havocAssigned(head, t, tag)
@@ -1784,6 +1824,7 @@ func (x *Exec) rangeStmt(st *State, t *ast.RangeStmt) []*State {
 	x.eval(st, t.X)
 	x.nloop++
 	L := &LoopCtx{ID: x.nloop, Stmt: t, Entry: st.clone(), Range: true, RangeX: t.X}
+	x.AllLoops = append(x.AllLoops, L)
 	tag := fmt.Sprintf("L%d", L.ID)
 	head := st.clone()
 	x.havocAssigned(head, t, tag)
